@@ -1,1 +1,1370 @@
-//! der — shared helper (see DESIGN.md section 2); filled in by the module that owns it.
+//! der — independent DER toolkit (no bcder, no rpki types).
+//!
+//! Everything here works on plain `Vec<u8>` / `&[u8]`; the only crate-internal
+//! dependency is `keys::{raw_sign, raw_verify_spki, key_id_of_spki, sha256}`
+//! (aws-lc-rs directly). Used by C02/C10/C14 as the *independent encoder and
+//! verifier*, and available to C01 (TBS patching) and C04 (mutation).
+//!
+//! # API overview
+//!
+//! ## 1. TLV encoding (always definite, minimal lengths)
+//! * `len_octets(n)` — short form / `81 ll` / `82 hh ll` / `83 ..` / `84 ..`
+//! * `tlv(tag, content)`, `cat(items)`, `seq(items)` (0x30), `set_of(items)`
+//!   (0x31, items sorted per X.690 §11.6), `set_unsorted(items)`,
+//!   `ctx_cons(n, content)` (`A0|n`), `ctx_prim(n, content)` (`80|n`)
+//! * `null()`, `boolean(b)`, `int_u64(v)`, `int_i64(v)`, `int_unsigned(be_bytes)`
+//!   (minimal two's complement of a non-negative big-endian number)
+//! * `oid(content_octets)`, `oid_content(arcs)` (base-128 sub-identifiers)
+//! * `octets(b)`, `bits(b, unused)`, `ia5(b)`, `printable(s)`, `utf8(s)`
+//! * `Tm { year, month, day, hour, min, sec }` with `Tm::from_unix(secs)` /
+//!   `to_unix()` (own proleptic-Gregorian arithmetic), `utc_time(tm)`
+//!   (YYMMDDHHMMSSZ), `gen_time(tm)` (YYYYMMDDHHMMSSZ), `time_varied(tm)`
+//!   (RFC 5280 rule: UTCTime for 1950..=2049), `TimeEnc { tm, generalized }`
+//!
+//! ## 2. Lenient TLV tree: parse, navigate, edit, re-encode
+//! * `parse(buf) -> Result<(Node, consumed)>`, `parse_exact(buf)`,
+//!   `parse_all(buf) -> Vec<Node>`; accepts non-minimal and indefinite
+//!   lengths, high tag numbers, keeps unparsable constructed content as raw
+//!   bytes, stops descending at `MAX_DEPTH`.
+//! * `Node { tag: Vec<u8>, body: Body::{Prim(bytes) | Cons(children)}, start,
+//!   content_start, end }` — offsets refer to the parsed buffer
+//!   (`raw(src)`, `raw_content(src)`), `Node::prim / Node::cons` build new
+//!   nodes, `tag0()`, `is_cons()`, `kids()`, `kids_mut()`, `prim_bytes()`,
+//!   `get(path)`, `get_mut(path)`, `walk(f)`, `paths()`, `encode()` (DER
+//!   definite lengths, children in stored order), `content_der()`.
+//!
+//! ## 3. CMS SignedData (RFC 5652 / 6488 / 6492 flavour)
+//! * `attr(oid, values)`, `attr_content_type(ct)`, `attr_message_digest(d)`,
+//!   `attr_signing_time(TimeEnc)`, `attr_binary_signing_time(secs)`
+//! * `attrs_to_be_signed(attrs)` = `31 ‖ DER length ‖ sorted attrs` (what RFC
+//!   5652 §5.4 says is signed), `attrs_implicit(attrs)` = same with tag `A0`
+//! * `CmsOpts { sig_alg_sha256_with_rsa, sig_alg_null, digest_set_null,
+//!   digest_si_null }` — the choices RFC 5652/7935 leave open
+//! * `Cms { content_type, content, certs, crls, sid, attrs, signature, opts }`
+//!   and `Cms::encode()`; `Cms::standard(..)` assembles + signs a correct
+//!   object with pool key `key_idx`.
+//! * `cms_parse(bytes) -> CmsView` (lenient parser based) and
+//!   `CmsView::verify()` — the harness' own verifier: digest attribute ==
+//!   SHA-256(eContent), content-type attribute == eContentType, signature over
+//!   the re-encoded DER SET OF of the attributes under the SPKI of the first
+//!   certificate (`raw_verify_spki`), sid == SKI extension == SHA-1(key).
+//! * `cert_parse(der) -> CertView { tbs_raw, sig_value, serial, spki, ski,
+//!   aki, basic_ca, .. }`, `CertView::signed_by(pool_idx)`,
+//!   `crl_parse(der) -> CrlView`.
+//!
+//! ## 4. eContent writers
+//! * `roa_content(as_id, v4, v6, explicit_version)` with `RoaPfx { bits, len,
+//!   max_len }` (`bits` left-aligned in 128 bits), `prefix_bit_string`
+//! * `aspa_content(customer, providers)`
+//! * `manifest_content(number_be, this, next, entries, explicit_version)`
+//!   with `MftEntry { name, hash, unused }`
+//!
+//! ## 5. X.509 for the CA protocols (RFC 6492 / 8181 identity certs)
+//! * `name_cn(cn)`, `alg_sha256_rsa(null)`, `Ext { oid, critical, value }`,
+//!   `ext_ski`, `ext_aki`, `ext_basic_constraints(ca)`, `ext_unknown`
+//! * `IdCertSpec { .. }.tbs()`, `CrlSpec { .. }.tbs()`,
+//!   `x509_sign(tbs, key_idx)` = `SEQ { tbs, alg, BIT STRING sig }`
+
+use crate::keys;
+
+//============ 1. TLV encoding =================================================
+
+/// DER definite length octets.
+pub fn len_octets(n: usize) -> Vec<u8> {
+    if n < 0x80 {
+        vec![n as u8]
+    } else if n < 0x100 {
+        vec![0x81, n as u8]
+    } else if n < 0x1_0000 {
+        vec![0x82, (n >> 8) as u8, n as u8]
+    } else if n < 0x100_0000 {
+        vec![0x83, (n >> 16) as u8, (n >> 8) as u8, n as u8]
+    } else {
+        vec![0x84, (n >> 24) as u8, (n >> 16) as u8, (n >> 8) as u8, n as u8]
+    }
+}
+
+pub fn tlv(tag: u8, content: &[u8]) -> Vec<u8> {
+    tlv_tag(&[tag], content)
+}
+
+pub fn tlv_tag(tag: &[u8], content: &[u8]) -> Vec<u8> {
+    let l = len_octets(content.len());
+    let mut v = Vec::with_capacity(tag.len() + l.len() + content.len());
+    v.extend_from_slice(tag);
+    v.extend_from_slice(&l);
+    v.extend_from_slice(content);
+    v
+}
+
+pub fn cat(items: &[Vec<u8>]) -> Vec<u8> {
+    items.concat()
+}
+
+pub fn seq(items: &[Vec<u8>]) -> Vec<u8> {
+    tlv(0x30, &cat(items))
+}
+
+/// X.690 §11.6 ordering: compare as octet strings, the shorter one padded
+/// with trailing zero octets.
+pub fn der_set_cmp(a: &[u8], b: &[u8]) -> std::cmp::Ordering {
+    let n = a.len().max(b.len());
+    for i in 0..n {
+        let x = a.get(i).copied().unwrap_or(0);
+        let y = b.get(i).copied().unwrap_or(0);
+        if x != y {
+            return x.cmp(&y);
+        }
+    }
+    a.len().cmp(&b.len())
+}
+
+pub fn sort_set_of(items: &mut [Vec<u8>]) {
+    items.sort_by(|a, b| der_set_cmp(a, b));
+}
+
+pub fn set_of(items: &[Vec<u8>]) -> Vec<u8> {
+    let mut i = items.to_vec();
+    sort_set_of(&mut i);
+    tlv(0x31, &cat(&i))
+}
+
+pub fn set_unsorted(items: &[Vec<u8>]) -> Vec<u8> {
+    tlv(0x31, &cat(items))
+}
+
+pub fn ctx_cons(n: u8, content: &[u8]) -> Vec<u8> {
+    tlv(0xA0 | (n & 0x1f), content)
+}
+
+pub fn ctx_prim(n: u8, content: &[u8]) -> Vec<u8> {
+    tlv(0x80 | (n & 0x1f), content)
+}
+
+pub fn null() -> Vec<u8> {
+    vec![0x05, 0x00]
+}
+
+pub fn boolean(b: bool) -> Vec<u8> {
+    vec![0x01, 0x01, if b { 0xFF } else { 0x00 }]
+}
+
+/// INTEGER from a non-negative big-endian number (any number of leading zero
+/// octets allowed on input; the output is minimal).
+pub fn int_unsigned(be: &[u8]) -> Vec<u8> {
+    let mut i = 0;
+    while i + 1 < be.len() && be[i] == 0 {
+        i += 1;
+    }
+    let mut c: Vec<u8> = Vec::new();
+    if be.is_empty() {
+        c.push(0);
+    } else {
+        if be[i] & 0x80 != 0 {
+            c.push(0);
+        }
+        c.extend_from_slice(&be[i..]);
+    }
+    tlv(0x02, &c)
+}
+
+pub fn int_u64(v: u64) -> Vec<u8> {
+    int_unsigned(&v.to_be_bytes())
+}
+
+pub fn int_i64(v: i64) -> Vec<u8> {
+    let b = v.to_be_bytes();
+    let mut i = 0;
+    while i + 1 < b.len()
+        && ((b[i] == 0 && b[i + 1] & 0x80 == 0) || (b[i] == 0xFF && b[i + 1] & 0x80 != 0))
+    {
+        i += 1;
+    }
+    tlv(0x02, &b[i..])
+}
+
+pub fn oid(content: &[u8]) -> Vec<u8> {
+    tlv(0x06, content)
+}
+
+/// Content octets of an OBJECT IDENTIFIER from its arcs (needs >= 2 arcs,
+/// first in 0..=2, second < 40 unless first == 2).
+pub fn oid_content(arcs: &[u64]) -> Vec<u8> {
+    fn push_base128(out: &mut Vec<u8>, mut v: u64) {
+        let mut tmp = vec![(v & 0x7f) as u8];
+        v >>= 7;
+        while v > 0 {
+            tmp.push(0x80 | (v & 0x7f) as u8);
+            v >>= 7;
+        }
+        tmp.reverse();
+        out.extend_from_slice(&tmp);
+    }
+    let mut out = Vec::new();
+    let first = arcs.first().copied().unwrap_or(0).min(2);
+    let second = arcs.get(1).copied().unwrap_or(0);
+    push_base128(&mut out, first * 40 + second);
+    for &a in arcs.iter().skip(2) {
+        push_base128(&mut out, a);
+    }
+    out
+}
+
+pub fn octets(b: &[u8]) -> Vec<u8> {
+    tlv(0x04, b)
+}
+
+/// BIT STRING with `unused` (0..=7) unused bits in the last octet. The caller
+/// is responsible for zeroing them (`zero_unused`) if DER is wanted.
+pub fn bits(b: &[u8], unused: u8) -> Vec<u8> {
+    let mut c = Vec::with_capacity(b.len() + 1);
+    c.push(unused);
+    c.extend_from_slice(b);
+    tlv(0x03, &c)
+}
+
+pub fn zero_unused(b: &mut [u8], unused: u8) {
+    if let Some(l) = b.last_mut() {
+        if unused > 0 && unused < 8 {
+            *l &= 0xFFu8 << unused;
+        }
+    }
+}
+
+pub fn ia5(b: &[u8]) -> Vec<u8> {
+    tlv(0x16, b)
+}
+
+pub fn printable(s: &str) -> Vec<u8> {
+    tlv(0x13, s.as_bytes())
+}
+
+pub fn utf8(s: &str) -> Vec<u8> {
+    tlv(0x0C, s.as_bytes())
+}
+
+//------------ time --------------------------------------------------------------
+
+/// Broken-down UTC time; conversion from/to Unix seconds with the harness'
+/// own proleptic Gregorian arithmetic (days-from-civil).
+#[derive(Clone, Copy, Debug, PartialEq, Eq, PartialOrd, Ord)]
+pub struct Tm {
+    pub year: i32,
+    pub month: u32,
+    pub day: u32,
+    pub hour: u32,
+    pub min: u32,
+    pub sec: u32,
+}
+
+impl Tm {
+    pub fn from_unix(secs: i64) -> Tm {
+        let days = secs.div_euclid(86_400);
+        let rem = secs.rem_euclid(86_400);
+        // civil-from-days
+        let z = days + 719_468;
+        let era = z.div_euclid(146_097);
+        let doe = z.rem_euclid(146_097);
+        let yoe = (doe - doe / 1_460 + doe / 36_524 - doe / 146_096) / 365;
+        let y = yoe + era * 400;
+        let doy = doe - (365 * yoe + yoe / 4 - yoe / 100);
+        let mp = (5 * doy + 2) / 153;
+        let d = doy - (153 * mp + 2) / 5 + 1;
+        let m = if mp < 10 { mp + 3 } else { mp - 9 };
+        let y = if m <= 2 { y + 1 } else { y };
+        Tm {
+            year: y as i32,
+            month: m as u32,
+            day: d as u32,
+            hour: (rem / 3600) as u32,
+            min: (rem % 3600 / 60) as u32,
+            sec: (rem % 60) as u32,
+        }
+    }
+
+    pub fn to_unix(self) -> i64 {
+        let y = if self.month <= 2 { self.year as i64 - 1 } else { self.year as i64 };
+        let era = y.div_euclid(400);
+        let yoe = y.rem_euclid(400);
+        let m = self.month as i64;
+        let doy = (153 * (if m > 2 { m - 3 } else { m + 9 }) + 2) / 5 + self.day as i64 - 1;
+        let doe = yoe * 365 + yoe / 4 - yoe / 100 + doy;
+        let days = era * 146_097 + doe - 719_468;
+        days * 86_400 + self.hour as i64 * 3600 + self.min as i64 * 60 + self.sec as i64
+    }
+}
+
+pub fn utc_time(t: Tm) -> Vec<u8> {
+    let s = format!(
+        "{:02}{:02}{:02}{:02}{:02}{:02}Z",
+        t.year.rem_euclid(100),
+        t.month,
+        t.day,
+        t.hour,
+        t.min,
+        t.sec
+    );
+    tlv(0x17, s.as_bytes())
+}
+
+pub fn gen_time(t: Tm) -> Vec<u8> {
+    let s = format!("{:04}{:02}{:02}{:02}{:02}{:02}Z", t.year, t.month, t.day, t.hour, t.min, t.sec);
+    tlv(0x18, s.as_bytes())
+}
+
+/// RFC 5280 §4.1.2.5: UTCTime through 2049, GeneralizedTime from 2050.
+pub fn time_varied(t: Tm) -> Vec<u8> {
+    if (1950..=2049).contains(&t.year) {
+        utc_time(t)
+    } else {
+        gen_time(t)
+    }
+}
+
+/// A time with an explicit choice of encoding. `generalized == false` is only
+/// meaningful for 1950..=2049 (the encoder falls back to GeneralizedTime
+/// outside that range, since UTCTime cannot express the year).
+#[derive(Clone, Copy, Debug)]
+pub struct TimeEnc {
+    pub tm: Tm,
+    pub generalized: bool,
+}
+
+impl TimeEnc {
+    pub fn new(secs: i64, generalized: bool) -> Self {
+        TimeEnc { tm: Tm::from_unix(secs), generalized }
+    }
+    pub fn is_generalized(self) -> bool {
+        self.generalized || !(1950..=2049).contains(&self.tm.year)
+    }
+    pub fn encode(self) -> Vec<u8> {
+        if self.is_generalized() {
+            gen_time(self.tm)
+        } else {
+            utc_time(self.tm)
+        }
+    }
+}
+
+//============ 2. lenient TLV tree ==============================================
+
+pub const MAX_DEPTH: usize = 48;
+
+#[derive(Clone, Debug, PartialEq, Eq)]
+pub enum Body {
+    Prim(Vec<u8>),
+    Cons(Vec<Node>),
+}
+
+#[derive(Clone, Debug, PartialEq, Eq)]
+pub struct Node {
+    /// Identifier octets (one octet unless the high-tag-number form is used).
+    pub tag: Vec<u8>,
+    pub body: Body,
+    /// Offsets into the buffer this node was parsed from (0 for built nodes).
+    pub start: usize,
+    pub content_start: usize,
+    pub end: usize,
+    /// The length was given in the indefinite form.
+    pub indefinite: bool,
+}
+
+#[derive(Clone, Debug, PartialEq, Eq)]
+pub struct ParseError(pub String);
+
+impl std::fmt::Display for ParseError {
+    fn fmt(&self, f: &mut std::fmt::Formatter) -> std::fmt::Result {
+        f.write_str(&self.0)
+    }
+}
+
+fn perr<T>(s: impl Into<String>) -> Result<T, ParseError> {
+    Err(ParseError(s.into()))
+}
+
+impl Node {
+    pub fn prim(tag: u8, content: &[u8]) -> Node {
+        Node { tag: vec![tag], body: Body::Prim(content.to_vec()), start: 0, content_start: 0, end: 0, indefinite: false }
+    }
+    pub fn cons(tag: u8, kids: Vec<Node>) -> Node {
+        Node { tag: vec![tag], body: Body::Cons(kids), start: 0, content_start: 0, end: 0, indefinite: false }
+    }
+    /// First identifier octet.
+    pub fn tag0(&self) -> u8 {
+        self.tag.first().copied().unwrap_or(0)
+    }
+    pub fn is_cons(&self) -> bool {
+        matches!(self.body, Body::Cons(_))
+    }
+    pub fn kids(&self) -> &[Node] {
+        match &self.body {
+            Body::Cons(k) => k,
+            Body::Prim(_) => &[],
+        }
+    }
+    pub fn kids_mut(&mut self) -> Option<&mut Vec<Node>> {
+        match &mut self.body {
+            Body::Cons(k) => Some(k),
+            Body::Prim(_) => None,
+        }
+    }
+    pub fn prim_bytes(&self) -> Option<&[u8]> {
+        match &self.body {
+            Body::Prim(b) => Some(b),
+            Body::Cons(_) => None,
+        }
+    }
+    pub fn prim_bytes_mut(&mut self) -> Option<&mut Vec<u8>> {
+        match &mut self.body {
+            Body::Prim(b) => Some(b),
+            Body::Cons(_) => None,
+        }
+    }
+    pub fn get(&self, path: &[usize]) -> Option<&Node> {
+        let mut n = self;
+        for &i in path {
+            n = n.kids().get(i)?;
+        }
+        Some(n)
+    }
+    pub fn get_mut(&mut self, path: &[usize]) -> Option<&mut Node> {
+        let mut n = self;
+        for &i in path {
+            n = n.kids_mut()?.get_mut(i)?;
+        }
+        Some(n)
+    }
+    /// First child with the given first identifier octet.
+    pub fn kid_tagged(&self, tag: u8) -> Option<&Node> {
+        self.kids().iter().find(|k| k.tag0() == tag)
+    }
+    /// The bytes of this node in the buffer it was parsed from.
+    pub fn raw<'a>(&self, src: &'a [u8]) -> &'a [u8] {
+        &src[self.start..self.end]
+    }
+    pub fn raw_content<'a>(&self, src: &'a [u8]) -> &'a [u8] {
+        let end = if self.indefinite { self.end.saturating_sub(2) } else { self.end };
+        &src[self.content_start..end.max(self.content_start)]
+    }
+    /// DER (definite, minimal length) encoding of the content.
+    pub fn content_der(&self) -> Vec<u8> {
+        match &self.body {
+            Body::Prim(b) => b.clone(),
+            Body::Cons(k) => {
+                let mut v = Vec::new();
+                for n in k {
+                    v.extend_from_slice(&n.encode());
+                }
+                v
+            }
+        }
+    }
+    /// Re-encodes the tree with definite minimal lengths; children keep their
+    /// stored order (use `sort_kids_der` for SET OF).
+    pub fn encode(&self) -> Vec<u8> {
+        tlv_tag(&self.tag, &self.content_der())
+    }
+    pub fn sort_kids_der(&mut self) {
+        if let Body::Cons(k) = &mut self.body {
+            let mut enc: Vec<(Vec<u8>, Node)> = k.drain(..).map(|n| (n.encode(), n)).collect();
+            enc.sort_by(|a, b| der_set_cmp(&a.0, &b.0));
+            k.extend(enc.into_iter().map(|(_, n)| n));
+        }
+    }
+    /// Depth-first walk with the path of every node.
+    pub fn walk<'a>(&'a self, f: &mut dyn FnMut(&[usize], &'a Node)) {
+        fn rec<'a>(n: &'a Node, path: &mut Vec<usize>, f: &mut dyn FnMut(&[usize], &'a Node)) {
+            f(path, n);
+            for (i, k) in n.kids().iter().enumerate() {
+                path.push(i);
+                rec(k, path, f);
+                path.pop();
+            }
+        }
+        rec(self, &mut Vec::new(), f);
+    }
+    pub fn paths(&self) -> Vec<Vec<usize>> {
+        let mut out = Vec::new();
+        self.walk(&mut |p, _| out.push(p.to_vec()));
+        out
+    }
+    pub fn count(&self) -> usize {
+        let mut n = 0;
+        self.walk(&mut |_, _| n += 1);
+        n
+    }
+}
+
+/// Parses one TLV at the start of `buf`; returns it and the bytes consumed.
+pub fn parse(buf: &[u8]) -> Result<(Node, usize), ParseError> {
+    let n = parse_at(buf, 0, 0)?;
+    let used = n.end;
+    Ok((n, used))
+}
+
+/// Parses exactly one TLV covering all of `buf`.
+pub fn parse_exact(buf: &[u8]) -> Result<Node, ParseError> {
+    let (n, used) = parse(buf)?;
+    if used != buf.len() {
+        return perr(format!("trailing data: {} of {} bytes used", used, buf.len()));
+    }
+    Ok(n)
+}
+
+/// Parses a concatenation of TLVs.
+pub fn parse_all(buf: &[u8]) -> Result<Vec<Node>, ParseError> {
+    parse_children(buf, 0, buf.len(), 0, false).map(|(k, _)| k)
+}
+
+fn parse_children(
+    buf: &[u8],
+    mut pos: usize,
+    end: usize,
+    depth: usize,
+    until_eoc: bool,
+) -> Result<(Vec<Node>, usize), ParseError> {
+    let mut kids = Vec::new();
+    loop {
+        if until_eoc {
+            if pos + 2 <= end && buf[pos] == 0 && buf[pos + 1] == 0 {
+                return Ok((kids, pos + 2));
+            }
+            if pos >= end {
+                return perr("missing end-of-contents");
+            }
+        } else if pos >= end {
+            return Ok((kids, pos));
+        }
+        let n = parse_at(&buf[..end], pos, depth)?;
+        pos = n.end;
+        kids.push(n);
+    }
+}
+
+fn parse_at(buf: &[u8], start: usize, depth: usize) -> Result<Node, ParseError> {
+    let mut pos = start;
+    let Some(&t0) = buf.get(pos) else { return perr("empty") };
+    let mut tag = vec![t0];
+    pos += 1;
+    if t0 & 0x1f == 0x1f {
+        loop {
+            let Some(&b) = buf.get(pos) else { return perr("truncated tag") };
+            tag.push(b);
+            pos += 1;
+            if b & 0x80 == 0 {
+                break;
+            }
+            if tag.len() > 6 {
+                return perr("tag too long");
+            }
+        }
+    }
+    let Some(&l0) = buf.get(pos) else { return perr("truncated length") };
+    pos += 1;
+    let constructed = t0 & 0x20 != 0;
+    if l0 == 0x80 {
+        if !constructed {
+            return perr("indefinite length on primitive");
+        }
+        if depth >= MAX_DEPTH {
+            return perr("indefinite length nested too deep");
+        }
+        let (kids, end) = parse_children(buf, pos, buf.len(), depth + 1, true)?;
+        return Ok(Node { tag, body: Body::Cons(kids), start, content_start: pos, end, indefinite: true });
+    }
+    let len = if l0 < 0x80 {
+        l0 as usize
+    } else {
+        let n = (l0 & 0x7f) as usize;
+        if n > 8 {
+            return perr("length of length > 8");
+        }
+        let mut l = 0usize;
+        for _ in 0..n {
+            let Some(&b) = buf.get(pos) else { return perr("truncated length") };
+            l = match l.checked_mul(256) {
+                Some(v) => v | b as usize,
+                None => return perr("length overflow"),
+            };
+            pos += 1;
+        }
+        l
+    };
+    let Some(end) = pos.checked_add(len) else { return perr("length overflow") };
+    if end > buf.len() {
+        return perr(format!("length {} exceeds buffer at {}", len, start));
+    }
+    let body = if constructed && depth < MAX_DEPTH {
+        match parse_children(buf, pos, end, depth + 1, false) {
+            Ok((kids, _)) => Body::Cons(kids),
+            Err(_) => Body::Prim(buf[pos..end].to_vec()),
+        }
+    } else {
+        Body::Prim(buf[pos..end].to_vec())
+    };
+    Ok(Node { tag, body, start, content_start: pos, end, indefinite: false })
+}
+
+//============ OIDs ==============================================================
+
+pub mod oids {
+    pub const SIGNED_DATA: &[u8] = &[0x2A, 0x86, 0x48, 0x86, 0xF7, 0x0D, 0x01, 0x07, 0x02];
+    pub const SHA256: &[u8] = &[0x60, 0x86, 0x48, 0x01, 0x65, 0x03, 0x04, 0x02, 0x01];
+    pub const RSA_ENCRYPTION: &[u8] = &[0x2A, 0x86, 0x48, 0x86, 0xF7, 0x0D, 0x01, 0x01, 0x01];
+    pub const SHA256_WITH_RSA: &[u8] = &[0x2A, 0x86, 0x48, 0x86, 0xF7, 0x0D, 0x01, 0x01, 0x0B];
+    pub const CONTENT_TYPE: &[u8] = &[0x2A, 0x86, 0x48, 0x86, 0xF7, 0x0D, 0x01, 0x09, 0x03];
+    pub const MESSAGE_DIGEST: &[u8] = &[0x2A, 0x86, 0x48, 0x86, 0xF7, 0x0D, 0x01, 0x09, 0x04];
+    pub const SIGNING_TIME: &[u8] = &[0x2A, 0x86, 0x48, 0x86, 0xF7, 0x0D, 0x01, 0x09, 0x05];
+    pub const BINARY_SIGNING_TIME: &[u8] = &[0x2A, 0x86, 0x48, 0x86, 0xF7, 0x0D, 0x01, 0x09, 0x10, 0x02, 0x2E];
+    /// id-smime-ct 1.2.840.113549.1.9.16.1
+    pub const CT_PREFIX: &[u8] = &[0x2A, 0x86, 0x48, 0x86, 0xF7, 0x0D, 0x01, 0x09, 0x10, 0x01];
+    pub const CT_ROA: &[u8] = &[0x2A, 0x86, 0x48, 0x86, 0xF7, 0x0D, 0x01, 0x09, 0x10, 0x01, 0x18];
+    pub const CT_MFT: &[u8] = &[0x2A, 0x86, 0x48, 0x86, 0xF7, 0x0D, 0x01, 0x09, 0x10, 0x01, 0x1A];
+    pub const CT_PROTOCOL: &[u8] = &[0x2A, 0x86, 0x48, 0x86, 0xF7, 0x0D, 0x01, 0x09, 0x10, 0x01, 0x1C];
+    pub const CT_GBR: &[u8] = &[0x2A, 0x86, 0x48, 0x86, 0xF7, 0x0D, 0x01, 0x09, 0x10, 0x01, 0x23];
+    pub const CT_ASPA: &[u8] = &[0x2A, 0x86, 0x48, 0x86, 0xF7, 0x0D, 0x01, 0x09, 0x10, 0x01, 0x31];
+    pub const CE_SKI: &[u8] = &[0x55, 0x1D, 0x0E];
+    pub const CE_KEY_USAGE: &[u8] = &[0x55, 0x1D, 0x0F];
+    pub const CE_BASIC_CONSTRAINTS: &[u8] = &[0x55, 0x1D, 0x13];
+    pub const CE_CRL_NUMBER: &[u8] = &[0x55, 0x1D, 0x14];
+    pub const CE_AKI: &[u8] = &[0x55, 0x1D, 0x23];
+    pub const AT_COMMON_NAME: &[u8] = &[0x55, 0x04, 0x03];
+}
+
+//============ 3. CMS ============================================================
+
+/// One Attribute: `SEQUENCE { attrType OID, attrValues SET OF ANY }`.
+/// `values` are complete DER values.
+pub fn attr(oid_content: &[u8], values: &[Vec<u8>]) -> Vec<u8> {
+    seq(&[oid(oid_content), set_of(values)])
+}
+
+pub fn attr_content_type(ct: &[u8]) -> Vec<u8> {
+    attr(oids::CONTENT_TYPE, &[oid(ct)])
+}
+
+pub fn attr_message_digest(digest: &[u8]) -> Vec<u8> {
+    attr(oids::MESSAGE_DIGEST, &[octets(digest)])
+}
+
+pub fn attr_signing_time(t: TimeEnc) -> Vec<u8> {
+    attr(oids::SIGNING_TIME, &[t.encode()])
+}
+
+pub fn attr_binary_signing_time(secs: u64) -> Vec<u8> {
+    attr(oids::BINARY_SIGNING_TIME, &[int_u64(secs)])
+}
+
+/// The octets the signature is computed over (RFC 5652 §5.4): the DER
+/// encoding of the attributes as `SET OF` with the universal SET tag.
+pub fn attrs_to_be_signed(attrs: &[Vec<u8>]) -> Vec<u8> {
+    set_of(attrs)
+}
+
+/// The `[0] IMPLICIT SignedAttributes` field as it appears in SignerInfo.
+pub fn attrs_implicit(attrs: &[Vec<u8>]) -> Vec<u8> {
+    let mut v = set_of(attrs);
+    v[0] = 0xA0;
+    v
+}
+
+/// Length in bytes of the content of the signed-attribute set.
+pub fn attrs_content_len(attrs: &[Vec<u8>]) -> usize {
+    attrs.iter().map(|a| a.len()).sum()
+}
+
+/// Encoding choices RFC 5652 / RFC 7935 leave to the sender.
+#[derive(Clone, Copy, Debug, Default)]
+pub struct CmsOpts {
+    /// signatureAlgorithm is sha256WithRSAEncryption instead of rsaEncryption
+    pub sig_alg_sha256_with_rsa: bool,
+    /// NULL parameters present in signatureAlgorithm
+    pub sig_alg_null: bool,
+    /// NULL parameters present in SignedData.digestAlgorithms
+    pub digest_set_null: bool,
+    /// NULL parameters present in SignerInfo.digestAlgorithm
+    pub digest_si_null: bool,
+}
+
+fn alg_id(oid_content: &[u8], with_null: bool) -> Vec<u8> {
+    if with_null {
+        seq(&[oid(oid_content), null()])
+    } else {
+        seq(&[oid(oid_content)])
+    }
+}
+
+/// All parts of a SignedData object; nothing is derived, so any
+/// inconsistency (wrong digest, wrong sid, ...) can be expressed.
+#[derive(Clone, Debug)]
+pub struct Cms {
+    /// eContentType (OID content octets)
+    pub content_type: Vec<u8>,
+    pub content: Vec<u8>,
+    /// DER certificates for the `certificates [0]` field (omitted if empty)
+    pub certs: Vec<Vec<u8>>,
+    /// DER CRLs for the `crls [1]` field (omitted if empty)
+    pub crls: Vec<Vec<u8>>,
+    /// subjectKeyIdentifier of the SignerIdentifier
+    pub sid: Vec<u8>,
+    /// DER attributes (any order; written sorted)
+    pub attrs: Vec<Vec<u8>>,
+    pub signature: Vec<u8>,
+    pub opts: CmsOpts,
+}
+
+impl Cms {
+    /// A correct object: the three standard attributes (+ `extra_attrs`),
+    /// digest of the content, signature with pool key `key_idx` over the DER
+    /// SET OF, sid = SHA-1 key identifier of that key.
+    #[allow(clippy::too_many_arguments)]
+    pub fn standard(
+        content_type: &[u8],
+        content: &[u8],
+        cert: Vec<u8>,
+        crls: Vec<Vec<u8>>,
+        key_idx: usize,
+        signing_time: TimeEnc,
+        extra_attrs: &[Vec<u8>],
+        opts: CmsOpts,
+    ) -> Cms {
+        let mut attrs = vec![
+            attr_content_type(content_type),
+            attr_message_digest(&keys::sha256(content)),
+            attr_signing_time(signing_time),
+        ];
+        attrs.extend_from_slice(extra_attrs);
+        let signature = keys::raw_sign(key_idx, &attrs_to_be_signed(&attrs));
+        let sid = keys::key_id_of_spki(&keys::pool().spki[key_idx % keys::POOL_SIZE])
+            .expect("pool key id")
+            .to_vec();
+        Cms {
+            content_type: content_type.to_vec(),
+            content: content.to_vec(),
+            certs: vec![cert],
+            crls,
+            sid,
+            attrs,
+            signature,
+            opts,
+        }
+    }
+
+    pub fn signer_info(&self) -> Vec<u8> {
+        seq(&[
+            int_u64(3),
+            ctx_prim(0, &self.sid),
+            alg_id(oids::SHA256, self.opts.digest_si_null),
+            attrs_implicit(&self.attrs),
+            alg_id(
+                if self.opts.sig_alg_sha256_with_rsa { oids::SHA256_WITH_RSA } else { oids::RSA_ENCRYPTION },
+                self.opts.sig_alg_null,
+            ),
+            octets(&self.signature),
+        ])
+    }
+
+    pub fn encode(&self) -> Vec<u8> {
+        let mut sd = vec![
+            int_u64(3),
+            set_of(&[alg_id(oids::SHA256, self.opts.digest_set_null)]),
+            seq(&[oid(&self.content_type), ctx_cons(0, &octets(&self.content))]),
+        ];
+        if !self.certs.is_empty() {
+            let mut c = self.certs.clone();
+            sort_set_of(&mut c);
+            sd.push(ctx_cons(0, &cat(&c)));
+        }
+        if !self.crls.is_empty() {
+            let mut c = self.crls.clone();
+            sort_set_of(&mut c);
+            sd.push(ctx_cons(1, &cat(&c)));
+        }
+        sd.push(set_of(&[self.signer_info()]));
+        seq(&[oid(oids::SIGNED_DATA), ctx_cons(0, &seq(&sd))])
+    }
+}
+
+/// Finds `needle` in `hay` (first occurrence).
+pub fn find_sub(hay: &[u8], needle: &[u8]) -> Option<usize> {
+    if needle.is_empty() || needle.len() > hay.len() {
+        return None;
+    }
+    hay.windows(needle.len()).position(|w| w == needle)
+}
+
+//------------ views (harness' own decoder / verifier) ---------------------------
+
+#[derive(Clone, Debug)]
+pub struct CmsView {
+    pub content_type: Vec<u8>,
+    pub content: Vec<u8>,
+    pub certs: Vec<Vec<u8>>,
+    pub crls: Vec<Vec<u8>>,
+    pub sid: Vec<u8>,
+    /// each attribute as found (DER bytes of the SEQUENCE), in message order
+    pub attrs: Vec<Vec<u8>>,
+    /// content octets of the `[0]` field exactly as found in the message
+    pub attrs_raw: Vec<u8>,
+    pub sig_alg: Vec<u8>,
+    pub signature: Vec<u8>,
+    /// byte ranges inside the message: eContent octets, signed attribute
+    /// content, signature value, first certificate's TBS, first CRL's TBS
+    pub span_content: (usize, usize),
+    pub span_attrs: (usize, usize),
+    pub span_signature: (usize, usize),
+    pub span_cert_tbs: Option<(usize, usize)>,
+    pub span_crl_tbs: Option<(usize, usize)>,
+}
+
+fn need<'a>(n: Option<&'a Node>, what: &str) -> Result<&'a Node, String> {
+    n.ok_or_else(|| format!("CMS structure: missing {}", what))
+}
+
+/// Parses an RFC 5652 SignedData with one SignerInfo (sid = SKI form).
+pub fn cms_parse(msg: &[u8]) -> Result<CmsView, String> {
+    let root = parse_exact(msg).map_err(|e| e.0)?;
+    if root.tag0() != 0x30 || need(root.get(&[0]), "contentType")?.prim_bytes() != Some(oids::SIGNED_DATA) {
+        return Err("not a SignedData ContentInfo".into());
+    }
+    let sd = need(root.get(&[1, 0]), "SignedData")?;
+    let k = sd.kids();
+    if k.len() < 4 {
+        return Err("SignedData too short".into());
+    }
+    let encap = &k[2];
+    let content_type = need(encap.get(&[0]), "eContentType")?.prim_bytes().ok_or("eContentType")?.to_vec();
+    let econtent = need(encap.get(&[1, 0]), "eContent")?;
+    // a constructed (BER) OCTET STRING: concatenate the segments
+    let (content, span_content) = match &econtent.body {
+        Body::Prim(b) => (b.clone(), (econtent.content_start, econtent.end)),
+        Body::Cons(segs) => {
+            let mut v = Vec::new();
+            for s in segs {
+                v.extend_from_slice(s.prim_bytes().ok_or("nested constructed OCTET STRING")?);
+            }
+            (v, (econtent.content_start, econtent.end))
+        }
+    };
+    let mut certs = Vec::new();
+    let mut crls = Vec::new();
+    let mut span_cert_tbs = None;
+    let mut span_crl_tbs = None;
+    let mut idx = 3;
+    while idx < k.len() - 1 {
+        let f = &k[idx];
+        match f.tag0() {
+            0xA0 => {
+                for c in f.kids() {
+                    if span_cert_tbs.is_none() {
+                        if let Some(t) = c.get(&[0]) {
+                            span_cert_tbs = Some((t.start, t.end));
+                        }
+                    }
+                    certs.push(c.raw(msg).to_vec());
+                }
+            }
+            0xA1 => {
+                for c in f.kids() {
+                    if span_crl_tbs.is_none() {
+                        if let Some(t) = c.get(&[0]) {
+                            span_crl_tbs = Some((t.start, t.end));
+                        }
+                    }
+                    crls.push(c.raw(msg).to_vec());
+                }
+            }
+            t => return Err(format!("unexpected field {:02x} in SignedData", t)),
+        }
+        idx += 1;
+    }
+    let sis = &k[k.len() - 1];
+    if sis.tag0() != 0x31 || sis.kids().len() != 1 {
+        return Err("expected exactly one SignerInfo".into());
+    }
+    let si = &sis.kids()[0];
+    let s = si.kids();
+    if s.len() < 6 {
+        return Err("SignerInfo too short".into());
+    }
+    if s[1].tag0() != 0x80 {
+        return Err("sid is not a subjectKeyIdentifier".into());
+    }
+    let sid = s[1].prim_bytes().ok_or("sid")?.to_vec();
+    if s[3].tag0() != 0xA0 {
+        return Err("signedAttrs missing".into());
+    }
+    let attrs: Vec<Vec<u8>> = s[3].kids().iter().map(|a| a.raw(msg).to_vec()).collect();
+    let attrs_raw = s[3].raw_content(msg).to_vec();
+    let sig_alg = need(s[4].get(&[0]), "signatureAlgorithm")?.prim_bytes().ok_or("sigalg")?.to_vec();
+    let signature = s[5].prim_bytes().ok_or("signature")?.to_vec();
+    Ok(CmsView {
+        content_type,
+        content,
+        certs,
+        crls,
+        sid,
+        attrs,
+        attrs_raw,
+        sig_alg,
+        signature,
+        span_content,
+        span_attrs: (s[3].content_start, s[3].end),
+        span_signature: (s[5].content_start, s[5].end),
+        span_cert_tbs,
+        span_crl_tbs,
+    })
+}
+
+impl CmsView {
+    /// Value(s) of the attribute with the given type.
+    pub fn attr_values(&self, oid_content: &[u8]) -> Vec<Vec<Vec<u8>>> {
+        let mut out = Vec::new();
+        for a in &self.attrs {
+            if let Ok(n) = parse_exact(a) {
+                if n.get(&[0]).and_then(|o| o.prim_bytes()) == Some(oid_content) {
+                    if let Some(set) = n.get(&[1]) {
+                        out.push(set.kids().iter().map(|v| v.raw(a).to_vec()).collect());
+                    }
+                }
+            }
+        }
+        out
+    }
+
+    /// The to-be-signed octets per RFC 5652 §5.4, re-encoded by the harness:
+    /// universal SET tag, DER length, attributes sorted.
+    pub fn to_be_signed(&self) -> Vec<u8> {
+        attrs_to_be_signed(&self.attrs)
+    }
+
+    /// The harness' own verification of the CMS layer (not of the chain):
+    /// digest, content type, signature under the embedded certificate's key,
+    /// sid == SKI extension == SHA-1 of the key. `Err(reason)` on failure.
+    pub fn verify(&self) -> Result<(), String> {
+        let md = self.attr_values(oids::MESSAGE_DIGEST);
+        if md.len() != 1 || md[0].len() != 1 {
+            return Err("message-digest attribute missing or repeated".into());
+        }
+        if md[0][0] != octets(&keys::sha256(&self.content)) {
+            return Err("message-digest attribute != SHA-256(eContent)".into());
+        }
+        let ct = self.attr_values(oids::CONTENT_TYPE);
+        if ct.len() != 1 || ct[0].len() != 1 || ct[0][0] != oid(&self.content_type) {
+            return Err("content-type attribute != eContentType".into());
+        }
+        let cert = self.certs.first().ok_or("no certificate")?;
+        let cv = cert_parse(cert)?;
+        let kid = keys::key_id_of_spki(&cv.spki).ok_or("cannot hash SPKI")?;
+        match &cv.ski {
+            Some(ski) if ski.as_slice() == kid.as_slice() => {}
+            _ => return Err("certificate SKI extension != SHA-1(subjectPublicKey)".into()),
+        }
+        if self.sid.as_slice() != kid.as_slice() {
+            return Err("sid != certificate SKI".into());
+        }
+        if !keys::raw_verify_spki(&cv.spki, &self.to_be_signed(), &self.signature) {
+            return Err("RSA signature does not verify over the DER SET OF of the signed attributes".into());
+        }
+        Ok(())
+    }
+}
+
+#[derive(Clone, Debug)]
+pub struct CertView {
+    pub tbs_raw: Vec<u8>,
+    pub sig_value: Vec<u8>,
+    /// INTEGER content octets
+    pub serial: Vec<u8>,
+    pub issuer: Vec<u8>,
+    pub subject: Vec<u8>,
+    /// content octets of the notBefore / notAfter strings
+    pub not_before: Vec<u8>,
+    pub not_after: Vec<u8>,
+    pub spki: Vec<u8>,
+    pub ski: Option<Vec<u8>>,
+    pub aki: Option<Vec<u8>>,
+    pub basic_ca: Option<bool>,
+    pub ext_oids: Vec<Vec<u8>>,
+}
+
+/// Parses an X.509 v3 certificate (enough for SKI/AKI/BasicConstraints).
+pub fn cert_parse(der: &[u8]) -> Result<CertView, String> {
+    let root = parse_exact(der).map_err(|e| e.0)?;
+    let tbs = need(root.get(&[0]), "tbsCertificate")?;
+    let sigv = need(root.get(&[2]), "signatureValue")?.prim_bytes().ok_or("signatureValue")?;
+    if sigv.first() != Some(&0) {
+        return Err("signature BIT STRING with unused bits".into());
+    }
+    let k = tbs.kids();
+    let off = if k.first().map(|n| n.tag0()) == Some(0xA0) { 1 } else { 0 };
+    if k.len() < off + 6 {
+        return Err("tbsCertificate too short".into());
+    }
+    let mut v = CertView {
+        tbs_raw: tbs.raw(der).to_vec(),
+        sig_value: sigv[1..].to_vec(),
+        serial: k[off].prim_bytes().ok_or("serial")?.to_vec(),
+        issuer: k[off + 2].raw(der).to_vec(),
+        subject: k[off + 4].raw(der).to_vec(),
+        not_before: need(k[off + 3].get(&[0]), "notBefore")?.prim_bytes().ok_or("notBefore")?.to_vec(),
+        not_after: need(k[off + 3].get(&[1]), "notAfter")?.prim_bytes().ok_or("notAfter")?.to_vec(),
+        spki: k[off + 5].raw(der).to_vec(),
+        ski: None,
+        aki: None,
+        basic_ca: None,
+        ext_oids: Vec::new(),
+    };
+    if let Some(exts) = k.iter().find(|n| n.tag0() == 0xA3).and_then(|n| n.get(&[0])) {
+        for e in exts.kids() {
+            let id = need(e.get(&[0]), "extnID")?.prim_bytes().ok_or("extnID")?.to_vec();
+            let val = e.kids().last().and_then(|n| n.prim_bytes()).ok_or("extnValue")?;
+            if id == oids::CE_SKI {
+                let n = parse_exact(val).map_err(|e| e.0)?;
+                v.ski = n.prim_bytes().map(|b| b.to_vec());
+            } else if id == oids::CE_AKI {
+                let n = parse_exact(val).map_err(|e| e.0)?;
+                v.aki = n.kid_tagged(0x80).and_then(|k| k.prim_bytes()).map(|b| b.to_vec());
+            } else if id == oids::CE_BASIC_CONSTRAINTS {
+                let n = parse_exact(val).map_err(|e| e.0)?;
+                let ca = n.kid_tagged(0x01).and_then(|k| k.prim_bytes()).map(|b| b != [0]);
+                v.basic_ca = Some(ca.unwrap_or(false));
+            }
+            v.ext_oids.push(id);
+        }
+    }
+    Ok(v)
+}
+
+impl CertView {
+    /// RSA-SHA256 over the TBS bytes under pool key `idx`.
+    pub fn signed_by(&self, idx: usize) -> bool {
+        keys::raw_verify(idx, &self.tbs_raw, &self.sig_value)
+    }
+}
+
+#[derive(Clone, Debug)]
+pub struct CrlView {
+    pub tbs_raw: Vec<u8>,
+    pub sig_value: Vec<u8>,
+    pub this_update: Vec<u8>,
+    pub next_update: Vec<u8>,
+    /// INTEGER content octets of each revoked serial
+    pub revoked: Vec<Vec<u8>>,
+}
+
+pub fn crl_parse(der: &[u8]) -> Result<CrlView, String> {
+    let root = parse_exact(der).map_err(|e| e.0)?;
+    let tbs = need(root.get(&[0]), "tbsCertList")?;
+    let sigv = need(root.get(&[2]), "signatureValue")?.prim_bytes().ok_or("signatureValue")?;
+    let k = tbs.kids();
+    let off = if k.first().map(|n| n.tag0()) == Some(0x02) { 1 } else { 0 };
+    if k.len() < off + 4 {
+        return Err("tbsCertList too short".into());
+    }
+    let mut revoked = Vec::new();
+    if let Some(list) = k.get(off + 4).filter(|n| n.tag0() == 0x30) {
+        for e in list.kids() {
+            revoked.push(need(e.get(&[0]), "userCertificate")?.prim_bytes().ok_or("serial")?.to_vec());
+        }
+    }
+    Ok(CrlView {
+        tbs_raw: tbs.raw(der).to_vec(),
+        sig_value: sigv.get(1..).unwrap_or(&[]).to_vec(),
+        this_update: k[off + 2].prim_bytes().ok_or("thisUpdate")?.to_vec(),
+        next_update: k[off + 3].prim_bytes().ok_or("nextUpdate")?.to_vec(),
+        revoked,
+    })
+}
+
+impl CrlView {
+    pub fn signed_by(&self, idx: usize) -> bool {
+        keys::raw_verify(idx, &self.tbs_raw, &self.sig_value)
+    }
+}
+
+//============ 4. eContent writers ==============================================
+
+/// A ROA prefix: `bits` holds the address left-aligned in 128 bits (an IPv4
+/// address occupies the top 32 bits).
+#[derive(Clone, Copy, Debug)]
+pub struct RoaPfx {
+    pub bits: u128,
+    pub len: u8,
+    pub max_len: Option<u8>,
+}
+
+/// RFC 3779 IPAddress: BIT STRING holding the first `len` bits.
+pub fn prefix_bit_string(bits128: u128, len: u8) -> Vec<u8> {
+    let len = len.min(128) as usize;
+    let nbytes = len.div_ceil(8);
+    let mut b = bits128.to_be_bytes()[..nbytes].to_vec();
+    let unused = (nbytes * 8 - len) as u8;
+    zero_unused(&mut b, unused);
+    bits(&b, unused)
+}
+
+fn roa_family(afi: u16, list: &[RoaPfx]) -> Vec<u8> {
+    let addrs: Vec<Vec<u8>> = list
+        .iter()
+        .map(|p| {
+            let mut items = vec![prefix_bit_string(p.bits, p.len)];
+            if let Some(m) = p.max_len {
+                items.push(int_u64(m as u64));
+            }
+            seq(&items)
+        })
+        .collect();
+    seq(&[octets(&afi.to_be_bytes()), seq(&addrs)])
+}
+
+/// RFC 6482 RouteOriginAttestation. Families with an empty list are omitted.
+pub fn roa_content(as_id: u32, v4: &[RoaPfx], v6: &[RoaPfx], explicit_version: bool) -> Vec<u8> {
+    let mut items = Vec::new();
+    if explicit_version {
+        items.push(ctx_cons(0, &int_u64(0)));
+    }
+    items.push(int_u64(as_id as u64));
+    let mut fams = Vec::new();
+    if !v4.is_empty() {
+        fams.push(roa_family(1, v4));
+    }
+    if !v6.is_empty() {
+        fams.push(roa_family(2, v6));
+    }
+    items.push(seq(&fams));
+    seq(&items)
+}
+
+/// ASPA profile: `SEQUENCE { [0] { 1 }, customer, SEQUENCE OF provider }`;
+/// providers are written in the order given.
+pub fn aspa_content(customer: u32, providers: &[u32]) -> Vec<u8> {
+    let p: Vec<Vec<u8>> = providers.iter().map(|&a| int_u64(a as u64)).collect();
+    seq(&[ctx_cons(0, &int_u64(1)), int_u64(customer as u64), seq(&p)])
+}
+
+#[derive(Clone, Debug)]
+pub struct MftEntry {
+    pub name: Vec<u8>,
+    pub hash: Vec<u8>,
+    pub unused: u8,
+}
+
+/// RFC 9286 Manifest eContent; hash algorithm SHA-256.
+pub fn manifest_content(
+    number_be: &[u8],
+    this_update: TimeEnc,
+    next_update: TimeEnc,
+    entries: &[MftEntry],
+    explicit_version: bool,
+) -> Vec<u8> {
+    let mut items = Vec::new();
+    if explicit_version {
+        items.push(ctx_cons(0, &int_u64(0)));
+    }
+    items.push(int_unsigned(number_be));
+    items.push(this_update.encode());
+    items.push(next_update.encode());
+    items.push(oid(oids::SHA256));
+    let list: Vec<Vec<u8>> = entries.iter().map(|e| seq(&[ia5(&e.name), bits(&e.hash, e.unused)])).collect();
+    items.push(seq(&list));
+    seq(&items)
+}
+
+//============ 5. X.509 (identity certificates, CRLs) ===========================
+
+pub fn name_cn(cn: &str) -> Vec<u8> {
+    seq(&[set_of(&[seq(&[oid(oids::AT_COMMON_NAME), printable(cn)])])])
+}
+
+pub fn alg_sha256_rsa(with_null: bool) -> Vec<u8> {
+    alg_id(oids::SHA256_WITH_RSA, with_null)
+}
+
+#[derive(Clone, Debug)]
+pub struct Ext {
+    pub oid: Vec<u8>,
+    pub critical: bool,
+    /// DER value that goes inside the extnValue OCTET STRING
+    pub value: Vec<u8>,
+}
+
+impl Ext {
+    pub fn encode(&self) -> Vec<u8> {
+        let mut items = vec![oid(&self.oid)];
+        if self.critical {
+            items.push(boolean(true));
+        }
+        items.push(octets(&self.value));
+        seq(&items)
+    }
+}
+
+pub fn ext_ski(key_id: &[u8]) -> Ext {
+    Ext { oid: oids::CE_SKI.to_vec(), critical: false, value: octets(key_id) }
+}
+
+pub fn ext_aki(key_id: &[u8]) -> Ext {
+    Ext { oid: oids::CE_AKI.to_vec(), critical: false, value: seq(&[ctx_prim(0, key_id)]) }
+}
+
+/// `ca == false` is written as the empty SEQUENCE (DEFAULT FALSE).
+pub fn ext_basic_constraints(ca: bool) -> Ext {
+    let v = if ca { seq(&[boolean(true)]) } else { seq(&[]) };
+    Ext { oid: oids::CE_BASIC_CONSTRAINTS.to_vec(), critical: true, value: v }
+}
+
+pub fn ext_unknown(oid_content: &[u8], critical: bool, payload: &[u8]) -> Ext {
+    Ext { oid: oid_content.to_vec(), critical, value: octets(payload) }
+}
+
+/// An RFC 5280 v3 certificate as used for RFC 6492/8181 identity EE certs.
+#[derive(Clone, Debug)]
+pub struct IdCertSpec {
+    /// non-negative big-endian serial number
+    pub serial: Vec<u8>,
+    pub issuer_cn: String,
+    pub subject_cn: String,
+    pub not_before: Tm,
+    pub not_after: Tm,
+    /// DER SubjectPublicKeyInfo
+    pub spki: Vec<u8>,
+    pub ski: Option<Vec<u8>>,
+    pub aki: Option<Vec<u8>>,
+    /// None: extension absent
+    pub basic_ca: Option<bool>,
+    pub extra_exts: Vec<Ext>,
+    /// NULL parameters in the inner and outer signature algorithm
+    pub alg_null: bool,
+}
+
+impl IdCertSpec {
+    pub fn tbs(&self) -> Vec<u8> {
+        let mut exts = Vec::new();
+        if let Some(ca) = self.basic_ca {
+            exts.push(ext_basic_constraints(ca).encode());
+        }
+        if let Some(ski) = &self.ski {
+            exts.push(ext_ski(ski).encode());
+        }
+        if let Some(aki) = &self.aki {
+            exts.push(ext_aki(aki).encode());
+        }
+        for e in &self.extra_exts {
+            exts.push(e.encode());
+        }
+        let mut items = vec![
+            ctx_cons(0, &int_u64(2)),
+            int_unsigned(&self.serial),
+            alg_sha256_rsa(self.alg_null),
+            name_cn(&self.issuer_cn),
+            seq(&[time_varied(self.not_before), time_varied(self.not_after)]),
+            name_cn(&self.subject_cn),
+            self.spki.clone(),
+        ];
+        if !exts.is_empty() {
+            items.push(ctx_cons(3, &seq(&exts)));
+        }
+        seq(&items)
+    }
+}
+
+#[derive(Clone, Debug)]
+pub struct CrlSpec {
+    pub issuer_cn: String,
+    pub this_update: Tm,
+    pub next_update: Tm,
+    /// (non-negative big-endian serial, revocation date)
+    pub revoked: Vec<(Vec<u8>, Tm)>,
+    pub aki: Option<Vec<u8>>,
+    /// non-negative big-endian CRL number
+    pub number: Option<Vec<u8>>,
+    pub extra_exts: Vec<Ext>,
+    pub alg_null: bool,
+}
+
+impl CrlSpec {
+    /// TBSCertList v2. The `crlExtensions [0]` wrapper is always written
+    /// (possibly holding an empty list when no extension is requested).
+    pub fn tbs(&self) -> Vec<u8> {
+        let mut items = vec![
+            int_u64(1),
+            alg_sha256_rsa(self.alg_null),
+            name_cn(&self.issuer_cn),
+            time_varied(self.this_update),
+            time_varied(self.next_update),
+        ];
+        if !self.revoked.is_empty() {
+            let r: Vec<Vec<u8>> =
+                self.revoked.iter().map(|(s, t)| seq(&[int_unsigned(s), time_varied(*t)])).collect();
+            items.push(seq(&r));
+        }
+        let mut exts = Vec::new();
+        if let Some(aki) = &self.aki {
+            exts.push(ext_aki(aki).encode());
+        }
+        if let Some(n) = &self.number {
+            exts.push(Ext { oid: oids::CE_CRL_NUMBER.to_vec(), critical: false, value: int_unsigned(n) }.encode());
+        }
+        for e in &self.extra_exts {
+            exts.push(e.encode());
+        }
+        items.push(ctx_cons(0, &seq(&exts)));
+        seq(&items)
+    }
+}
+
+/// `SEQUENCE { tbs, sha256WithRSAEncryption, BIT STRING signature }` signed
+/// with pool key `key_idx` (RSASSA-PKCS1-v1_5 / SHA-256 over `tbs`).
+pub fn x509_sign(tbs: &[u8], key_idx: usize, alg_null: bool) -> Vec<u8> {
+    let sig = keys::raw_sign(key_idx, tbs);
+    seq(&[tbs.to_vec(), alg_sha256_rsa(alg_null), bits(&sig, 0)])
+}
+
+/// Same, with an explicitly given signature value.
+pub fn x509_wrap(tbs: &[u8], sig: &[u8], alg_null: bool) -> Vec<u8> {
+    seq(&[tbs.to_vec(), alg_sha256_rsa(alg_null), bits(sig, 0)])
+}
+
+//============ self test ==========================================================
+
+/// Sanity checks of the toolkit itself (called from the C02 module once).
+pub fn selfcheck() -> Result<(), String> {
+    if len_octets(127) != [0x7f] || len_octets(128) != [0x81, 0x80] || len_octets(255) != [0x81, 0xff]
+        || len_octets(256) != [0x82, 1, 0] || len_octets(65535) != [0x82, 0xff, 0xff]
+        || len_octets(65536) != [0x83, 1, 0, 0]
+    {
+        return Err("len_octets".into());
+    }
+    if int_u64(0) != [2, 1, 0] || int_u64(127) != [2, 1, 127] || int_u64(128) != [2, 2, 0, 128]
+        || int_u64(256) != [2, 2, 1, 0] || int_i64(-1) != [2, 1, 0xff] || int_i64(-129) != [2, 2, 0xff, 0x7f]
+    {
+        return Err("integer".into());
+    }
+    if oid_content(&[1, 2, 840, 113549, 1, 7, 2]) != oids::SIGNED_DATA {
+        return Err("oid_content".into());
+    }
+    for &(secs, y, mo, d) in
+        &[(0i64, 1970, 1u32, 1u32), (951_782_400, 2000, 2, 29), (4_102_444_800, 2100, 1, 1), (-86_400, 1969, 12, 31)]
+    {
+        let t = Tm::from_unix(secs);
+        if (t.year, t.month, t.day) != (y, mo, d) || t.to_unix() != secs {
+            return Err(format!("calendar {}", secs));
+        }
+    }
+    let s = set_of(&[vec![0x30, 1, 5], vec![0x30, 1, 4], vec![0x04, 0]]);
+    if s != [0x31, 8, 0x04, 0, 0x30, 1, 4, 0x30, 1, 5] {
+        return Err("set_of".into());
+    }
+    let n = parse_exact(&s).map_err(|e| e.0)?;
+    if n.kids().len() != 3 || n.encode() != s {
+        return Err("parse/encode".into());
+    }
+    // non-minimal and indefinite lengths are read and normalised
+    let odd = [0x30, 0x80, 0x04, 0x81, 0x01, 0xAA, 0x00, 0x00];
+    let n = parse_exact(&odd).map_err(|e| e.0)?;
+    if n.encode() != [0x30, 3, 0x04, 1, 0xAA] {
+        return Err("lenient parse".into());
+    }
+    Ok(())
+}
